@@ -55,6 +55,9 @@ func (s *heapSys) Do(o tt.Op) tt.Res {
 	case "push":
 		s.h.Push(o.A[0])
 		return tt.Res{Ok: true}
+	case "pushn": // one variadic Push of the whole batch
+		s.h.Push(o.A...)
+		return tt.Res{Ok: true}
 	case "pop":
 		return tt.Res{Ok: true, V: s.h.Pop()}
 	case "delete":
@@ -169,7 +172,8 @@ func heapExplorer(depth int, tier string) *tt.Explorer {
 			if len(path) > d {
 				return nil
 			}
-			r := []tt.Op{op("pop"), op("clear"), op("merge", 11, 20), op("meld", 31, 10, 10), op("meldx", 10, 20, 31), op("mergex", 20, 11)}
+			r := []tt.Op{op("pop"), op("clear"), op("merge", 11, 20), op("meld", 31, 10, 10), op("meldx", 10, 20, 31), op("mergex", 20, 11),
+				op("pushn", 31, 5, 20), op("pushn", 50, 49, 48, 47, 46, 45, 44, 43, 42, 3, 41, 40, 2)}
 			for _, v := range append([]int{0}, heapVals...) { // the zero value is a value like any other
 				r = append(r, op("push", v), op("delete", v))
 			}
@@ -186,6 +190,18 @@ func heapExplorer(depth int, tier string) *tt.Explorer {
 		},
 		SplitDepth: 1,
 	}
+}
+
+// heapBatch: a batch of 2..70 values (sizes around 8, 12, 16, 32, 64 preferred); the smallest or the largest
+// value of the batch sits at a random position, so that a bulk heapify that skips a part of the array shows.
+func heapBatch(rng *rand.Rand) []int {
+	n := []int{2, 3, 7, 8, 9, 11, 12, 13, 15, 16, 17, 31, 32, 33, 63, 64, 65, 70}[rng.Intn(18)]
+	b := make([]int, n)
+	for i := range b {
+		b[i] = 10 + rng.Intn(41)
+	}
+	b[rng.Intn(n)] = []int{0, 1, 2, 51, 52}[rng.Intn(5)]
+	return b
 }
 
 // heapLinear: seeded long runs over 0..50 with all operations.
@@ -216,9 +232,17 @@ func heapLinear(cfg Config, file string, runs, steps int) (int, error) {
 			case x < 4:
 				return op("convert", rng.Intn(3)), true
 			case x < 6:
+				if rng.Intn(3) == 0 { // a second heap past the batch sizes an implementation may special-case
+					return op("merge", heapBatch(rng)...), true
+				}
 				return op("merge", 1+rng.Intn(50), 1+rng.Intn(50)), true
 			case x < 8:
+				if rng.Intn(3) == 0 {
+					return op("meld", heapBatch(rng)...), true
+				}
 				return op("meld", 1+rng.Intn(50)), true
+			case x < 11:
+				return op("pushn", heapBatch(rng)...), true
 			case x < 20:
 				return op("delete", v), true
 			case (grow && x < 75) || (!grow && x < 40):
@@ -278,6 +302,11 @@ func init() {
 			s.Leaves += runs
 			s.Extra["linear_runs"] = runs
 			s.Extra["linear_nodes"] = n
+			if err := sparsePass(cfg, s, func(f string) (int, error) {
+				return heapLinear(cfg, f, runs, steps)
+			}); err != nil {
+				return nil, err
+			}
 			return s, nil
 		},
 		newSys: func(variant string) (func() tt.Sys, any) {
